@@ -26,7 +26,7 @@ class A(Adapter):
     terminate_on_invalid = False
     max_steps = 40
     episode_cap = 520
-    ops = ("state", "step", "judge", "instance", "walk", "bounds")
+    ops = ("state", "step", "judge", "instance", "walk", "bounds", "spec", "run")
     state_fields = ["puzzle", "empty", "step_count"]
 
     def configs(self, tier):
@@ -90,6 +90,13 @@ class A(Adapter):
                 self.__dict__.setdefault("_exhaustive_done", {})[(n, cfg.meta["dense"])] = True
         if 0 < cfg.meta["moves"] <= 30:   # (a zero-length scan cannot run under disable_jit)
             self._tape(ctx, cfg, env, rng, drv, 3 if ctx.quick else 10)
+        # wave 2 (audit r3): declared specs vs the model's obsSpec / actionSpec, reset timestep, observation arrays, whole episodes
+        # and their returns (harness/puzzle_wave2.py)
+        import puzzle_wave2 as w2
+
+        w2.check_specs(ctx, self, cfg, env, drv)
+        w2.check_reset_and_obs(ctx, self, cfg, env, runner, rng, drv, 2 if ctx.quick else 6, 3 if ctx.quick else 8)
+        w2.check_run(ctx, self, cfg, env, runner, rng, drv, self.completed, with_return=True)
 
     JUDGE_KEYS = ["conserved", "slide_ok", "rules_ok", "solved_ok", "illegal_ok"]
 
